@@ -35,6 +35,9 @@ CONFIGS = {
     "Decimal": dict(non_int_type="Decimal"),
     "casei": dict(non_int_type="float", case_sensitive=False),
     "autoreduce": dict(non_int_type="float", auto_reduce_dimensions=True),
+    # exact exponents: the merge of proportional units divides exponents, which only stays exact in rational arithmetic
+    # (the float/Decimal rounding of that division is the recorded C15 finding, not re-reported here)
+    "autoreduceF": dict(non_int_type="Fraction", auto_reduce_dimensions=True),
 }
 
 
@@ -55,7 +58,7 @@ def mult_units(M):
 def shards(tier, seed):
     M = model()
     n = len(mult_units(M))
-    cfgs = ["float"] if tier == "quick" else list(CONFIGS)
+    cfgs = ["float"] if tier == "quick" else [c for c in CONFIGS if c != "autoreduceF"]
     out = []
     nblocks = 16
     for cfg in cfgs:
@@ -67,8 +70,11 @@ def shards(tier, seed):
         out.append(("triples", cfg))
         out.append(("dimspecs", cfg))
         out.append(("warm", cfg, "containers"))
+        if cfg != "autoreduce":
+            out.append(("qclosure", cfg))
         if tier != "quick":
             out.append(("warm", cfg, "units"))
+    out.append(("qclosure", "autoreduceF"))
     out.append(("generated",))
     return out
 
@@ -407,6 +413,56 @@ def run_warm(acc, cfg, tier, what):
     acc.sample({"clause": "history", "cfg": cfg, "what": what, "alphabet": n, "passes": 2})
 
 
+def run_qclosure(acc, cfg, tier):
+    """'preserved by products, quotients and powers', on QUANTITIES: under auto_reduce_dimensions every * / **
+    rewrites the unit container, and whatever it rewrites it to must still have the product / quotient / power of
+    the operands' dimension vectors and stay convertible to the unreduced unit"""
+    M = model()
+    ureg = get_reg(cfg)
+    cs = containers(tier, maxn=1) + [c for c in containers(tier) if len(c) == 2][:: 7]
+    acc.dim("quantity-closure alphabet", len(cs))
+    dvs = [M.dim_of_units(c) for c in cs]
+
+    def dv_of(q):
+        return dimkey({k: Fraction(v).limit_denominator(1000) for k, v in dict(q.dimensionality).items()})
+
+    def comb(d1, d2, s2):
+        out = dict(d1)
+        for k, v in d2.items():
+            out[k] = out.get(k, 0) + s2 * v
+        return dimkey({k: v for k, v in out.items() if v})
+
+    for i, a in enumerate(cs):
+        qa = ureg.Quantity(2, mk(ureg, cfg, a))
+        for j, b in enumerate(cs):
+            qb = ureg.Quantity(4, mk(ureg, cfg, b))
+            for opname, fn, sign in (("*", lambda: qa * qb, 1), ("/", lambda: qa / qb, -1)):
+                acc.ev()
+                acc.nt(("qclosure", cfg, opname, i, j))
+                case = {"cfg": cfg, "a": {k: str(v) for k, v in a.items()}, "b": {k: str(v) for k, v in b.items()}, "op": opname}
+                o = outcome_of(fn)
+                if o[0] != "ok":
+                    acc.violation(["closure", "Quantity" + opname, "raises-on-multiplicative-operands", cfg], case, "a quantity", o)
+                    continue
+                want = comb(dvs[i], dvs[j], sign)
+                if dv_of(o[1]) != want:
+                    acc.violation(["closure", "Quantity" + opname, "dimension-of-result-is-not-the-product-of-dimensions", cfg], case, str(want), str(dv_of(o[1])))
+                plain = ureg.UnitsContainer(mk(ureg, cfg, a)) * ureg.UnitsContainer(mk(ureg, cfg, b)) ** sign
+                o2 = outcome_of(lambda: o[1].is_compatible_with(ureg.Unit(plain)) and is_number(o[1].to(ureg.Unit(plain)).magnitude))
+                if o2 != ("ok", True):
+                    acc.violation(["closure", "Quantity" + opname, "result-not-convertible-to-the-plain-product-unit", cfg], case, True, o2)
+        for p in (2, -1, 3):
+            acc.ev()
+            o = outcome_of(lambda: qa**p)
+            case = {"cfg": cfg, "a": {k: str(v) for k, v in a.items()}, "op": f"**{p}"}
+            if o[0] != "ok":
+                acc.violation(["closure", "Quantity**", "raises-on-multiplicative-operands", cfg], case, "a quantity", o)
+            elif dv_of(o[1]) != dimkey({k: v * p for k, v in dvs[i].items()}):
+                acc.violation(["closure", "Quantity**", "dimension-of-result-is-not-the-product-of-dimensions", cfg], case, str(dimkey({k: v * p for k, v in dvs[i].items()})), str(dv_of(o[1])))
+    acc.outcome("quantity-closure")
+    acc.sample({"clause": "closure", "cfg": cfg, "example": "Q(2, liter) * Q(4, meter) under auto_reduce_dimensions has dimension [length]**4"})
+
+
 def run_triples(acc, cfg, tier):
     """equivalence laws and closure under * / ** on a 40-container sub-alphabet, decided by the
     implementation's own predicate (so they hold even where R1 and pint could share a mistake)"""
@@ -590,6 +646,8 @@ def run_shard(acc, shard, tier, seed):
         run_generated(acc)
     elif kind == "warm":
         run_warm(acc, shard[1], tier, shard[2])
+    elif kind == "qclosure":
+        run_qclosure(acc, shard[1], tier)
     else:
         raise core.HarnessError(f"unknown shard {shard}")
 
@@ -626,6 +684,8 @@ def replay(rec):
         if tuple(site) not in {tuple(v["site"]) for v in acc.violations} and "block" in case:
             # the verdict may depend on the conversions performed before it: redo the whole block in order
             run_containers(acc, cfg, case["block"][0], case["block"][1], rec.get("tier", "quick"))
+    elif site[0] == "closure" and site[1].startswith("Quantity"):
+        run_qclosure(acc, cfg, rec.get("tier", "quick"))
     elif site[0] in ("equivalence", "closure"):
         run_triples(acc, cfg, rec.get("tier", "quick"))
     elif site[0] == "dimspec":
